@@ -268,6 +268,14 @@ impl Buffer {
     }
 
     fn scroll_up(&mut self, layer: usize) {
+        self.scroll_up_by(layer, 1);
+    }
+
+    /// Scrolls the editable area up by `count` rows in one pass over it (the result of `count` single scrolls).
+    fn scroll_up_by(&mut self, layer: usize, count: i32) {
+        if count <= 0 {
+            return;
+        }
         let start_line: i32 = self.get_first_editable_line();
         let end_line = self.get_last_editable_line();
 
@@ -276,15 +284,26 @@ impl Buffer {
 
         let layer = &mut self.layers[layer];
         for x in start_column..=end_column {
-            (start_line..end_line).for_each(|y| {
-                let ch = layer.get_char((x, y + 1));
+            (start_line..=end_line).for_each(|y| {
+                let ch = if y <= end_line - count {
+                    layer.get_char((x, y + count))
+                } else {
+                    AttributedChar::default()
+                };
                 layer.set_char((x, y), ch);
             });
-            layer.set_char((x, end_line), AttributedChar::default());
         }
     }
 
     fn scroll_down(&mut self, layer: usize) {
+        self.scroll_down_by(layer, 1);
+    }
+
+    /// Scrolls the editable area down by `count` rows in one pass over it (the result of `count` single scrolls).
+    fn scroll_down_by(&mut self, layer: usize, count: i32) {
+        if count <= 0 {
+            return;
+        }
         let start_line: i32 = self.get_first_editable_line();
         let end_line = self.get_last_editable_line();
 
@@ -293,15 +312,22 @@ impl Buffer {
 
         let layer = &mut self.layers[layer];
         for x in start_column..=end_column {
-            ((start_line + 1)..=end_line).rev().for_each(|y| {
-                let ch = layer.get_char((x, y - 1));
+            (start_line..=end_line).rev().for_each(|y| {
+                let ch = if y >= start_line + count {
+                    layer.get_char((x, y - count))
+                } else {
+                    AttributedChar::default()
+                };
                 layer.set_char((x, y), ch);
             });
-            layer.set_char((x, start_line), AttributedChar::default());
         }
     }
 
-    fn scroll_left(&mut self, layer: usize) {
+    /// Scrolls the editable area left by `count` columns, one pass over every row (the result of `count` single scrolls).
+    fn scroll_left_by(&mut self, layer: usize, count: i32) {
+        if count <= 0 {
+            return;
+        }
         let start_line: i32 = self.get_first_editable_line();
         let end_line = self.get_last_editable_line();
 
@@ -316,19 +342,32 @@ impl Buffer {
                 continue;
             };
             if line.chars.len() > start_column {
-                let end_column = (end_column as usize).min(line.chars.len());
-                line.chars.insert(end_column, AttributedChar::default());
-                line.chars.remove(start_column);
+                let end_column = (end_column.max(0) as usize).min(line.chars.len());
+                if end_column > start_column {
+                    // the cells between the margins move left, blanks come in at the right margin
+                    let n = (count as usize).min(end_column - start_column);
+                    line.chars[start_column..end_column].rotate_left(n);
+                    line.chars[end_column - n..end_column].fill(AttributedChar::default());
+                } else {
+                    for _ in 0..count {
+                        line.chars.insert(end_column, AttributedChar::default());
+                        line.chars.remove(start_column);
+                    }
+                }
             }
         }
     }
 
-    fn scroll_right(&mut self, layer: usize) {
+    /// Scrolls the editable area right by `count` columns, one pass over every row (the result of `count` single scrolls).
+    fn scroll_right_by(&mut self, layer: usize, count: i32) {
+        if count <= 0 {
+            return;
+        }
         let start_line = self.get_first_editable_line();
         let end_line = self.get_last_editable_line();
 
         let start_column = self.get_first_editable_column() as usize;
-        let end_column = self.get_last_editable_column() as usize;
+        let end_column = self.get_last_editable_column().max(0) as usize;
 
         let layer = &mut self.layers[layer];
         for i in start_line..=end_line {
@@ -338,9 +377,27 @@ impl Buffer {
                 continue;
             };
             if line.chars.len() > start_column {
-                line.chars.insert(start_column, AttributedChar::default());
-                if end_column + 1 < line.chars.len() {
-                    line.chars.remove(end_column + 1);
+                if start_column <= end_column {
+                    let mut n = count as usize;
+                    // a row that ends before the right margin grows until it reaches it
+                    if line.chars.len() <= end_column {
+                        let grow = n.min(end_column + 1 - line.chars.len());
+                        line.chars.splice(start_column..start_column, std::iter::repeat(AttributedChar::default()).take(grow));
+                        n -= grow;
+                    }
+                    // then the cells between the margins move right, blanks come in at the left margin
+                    if n > 0 {
+                        let n = n.min(end_column + 1 - start_column);
+                        line.chars[start_column..=end_column].rotate_right(n);
+                        line.chars[start_column..start_column + n].fill(AttributedChar::default());
+                    }
+                } else {
+                    for _ in 0..count {
+                        line.chars.insert(start_column, AttributedChar::default());
+                        if end_column + 1 < line.chars.len() {
+                            line.chars.remove(end_column + 1);
+                        }
+                    }
                 }
             }
         }
